@@ -103,7 +103,19 @@ def bootstrap() -> dict:
     user_mod.password_context = CryptContext(
         schemes=["bcrypt", "pbkdf2_sha256"], deprecated="auto", bcrypt__rounds=4)
 
-    # deterministic AdaptationSet ids (the repo seeds them from hash(time.time()))
+    # import every module of the package now (request handlers are otherwise imported on first use): the
+    # snapshot below must know the import-time value of every module- and class-level mutable object
+    import importlib
+    import pkgutil
+    for m in pkgutil.walk_packages(dashlive.__path__, "dashlive."):
+        if m.name in sys.modules or m.name.endswith("__main__"):
+            continue
+        try:
+            importlib.import_module(m.name)
+        except BaseException:  # noqa: BLE001 - optional modules with dependencies missing in this sandbox
+            pass
+    simclock.rescan()
+
     _STATE.update({
         "repo": str(REPO),
         "patched_datetime": patched,
